@@ -1,6 +1,7 @@
 import TxVerif.Props.C15
 import TxVerif.Tie.Skeleton
 import TxVerif.Tie.Fixes
+import TxVerif.Props.C15Engine
 open TxVerif
 #print axioms finished_tx_rejects
 #print axioms close_idempotent
@@ -17,3 +18,30 @@ open TxVerif
 #print axioms Tie.close_keeps_file
 #print axioms Tie.pq_guards_present
 #print axioms Tie.pq_fix_initACK
+#print axioms c15e_eop_error_no_change
+#print axioms c15e_alloc_oom_no_change
+#print axioms c15e_flush_oom_partial
+#print axioms c15e_kind_pageid
+#print axioms c15e_kind_freed
+#print axioms c15e_kind_flushed
+#print axioms c15e_kind_free_dirty
+#print axioms c15e_kind_read_fresh
+#print axioms c15e_kind_alloc_oom
+#print axioms c15e_kind_flush_oom
+#print axioms c15e_kinds_complete
+#print axioms c15e_guard_matrix_consistent
+#print axioms c15e_rejected_ops_invisible
+#print axioms c15e_rejected_op_invisible
+#print axioms c15e_rejected_op_invisible_traced
+#print axioms c15e_rejected_keeps_invariant
+#print axioms c15e_flush_oom_changes
+#print axioms stepT_step
+#print axioms stepT_error_step
+#print axioms stepT_error_state
+#print axioms stepT_flushAll_error
+#print axioms flushListSt_spec
+#print axioms inserted_run
+#print axioms runinv_stepT
+#print axioms rejected_of_error
+#print axioms getPage_ok
+#print axioms result_not_error
